@@ -40,9 +40,9 @@ def r3(run, tree):
 
 
 def r4_r5(run, tree):
-    run.rule("C03.R4", "large-cell limit and dependences of every pre-selection mask (thin and thick mode)", "D5 limit + D4 dependence",
-             "", floor=8)
-    mr.check_preselection(run, tree, mr.MODES)
+    run.rule("C03.R4", "large-cell limit and dependences of every pre-selection mask (zero-thickness mode; thick mode is C11)",
+             "D5 limit + D4 dependence", "", floor=4)
+    mr.check_preselection(run, tree, [mr.MODES[0]])
 
 
 def r6(run, tree):
